@@ -1,6 +1,7 @@
 /- C16 / C13 (async) / C17 / C14 / C15 ties: tokio adapters, AsyncFixedBuf polls, async read_frame with Pending and cancellation -/
 import FBV.Drv.RF
 import FBV.Model.Async
+import FBV.Spec.SatV
 namespace FBV.DrvAAD
 open FBV FBV.Wire FBV.DrvAD
 
@@ -44,6 +45,10 @@ def aop? (t : String) : Option AOp :=
       pure (.read (← p.toNat?) (← c.toNat?))
     | _ => none
   else if t.startsWith "w" then (unhex? (t.drop 1).toString).map .write
+  else if t.startsWith "W" then
+    -- `poll_write_vectored`: by the trait's default, `poll_write` of the first non-empty slice
+    let body := (t.drop 1).toString
+    if body == "" then some (.write []) else ((body.splitOn "+").mapM unhex?).map fun l => .write (firstNE l)
   else none
 
 def mkRb (p c : Nat) : ReadBuf := { buf := List.replicate p 0x50 ++ List.replicate c 0x2e, filled := p }
